@@ -13,11 +13,23 @@ import (
 )
 
 const (
-	repoDir    = "/repo"
-	verifDir   = "/verif"
-	harnessDir = "/verif/harness"
-	modPath    = "github.com/yandex/mysync"
+	verifDir = "/verif"
+	modPath  = "github.com/yandex/mysync"
 )
+
+// repoDir / harnessDir can be redirected (development aid: trying a harness or a
+// mutant in a scratch copy). Registered checks always use the defaults.
+var (
+	repoDir    = envOr("VERIF_REPO", "/repo")
+	harnessDir = envOr("VERIF_HARNESS", "/verif/harness")
+)
+
+func envOr(k, def string) string {
+	if v := os.Getenv(k); v != "" {
+		return v
+	}
+	return def
+}
 
 // buildOverlay maps /verif/harness/<rel> to /repo/internal/<rel> and adds the
 // instrumented views of repo files (see instr.go).
